@@ -23,27 +23,6 @@ theorem pPrim_true (n r) : pPrim (n + 1) (.ktrue :: r) = some (.bool true, r) :=
 theorem pPrim_if (n r) : pPrim (n + 1) (.kif :: r) = iteRes (pImp n) r := by simp only [pPrim]
 theorem pPrim_lp (n r) : pPrim (n + 1) (.lp :: r) = parenRes (pImp n r) := by simp only [pPrim]
 
-/-- arithmetic expressions of the assertion language -/
-def wfA : Expr → Bool
-  | .var _ | .int _ => true
-  | .un .neg a => wfA a
-  | .bin o a b => o.isArith && wfA a && wfA b
-  | .fn1 _ a => wfA a
-  | .fn2 _ a b => wfA a && wfA b
-  | _ => false
-
-def BOp.isRel : BOp → Bool
-  | .eq | .ne | .le | .lt => true
-  | _ => false
-
-/-- conditions of the assertion language -/
-def wfC : Expr → Bool
-  | .bool b => b
-  | .un .not a => wfC a
-  | .bin o a b => (o.isRel && wfA a && wfA b) || (o.boolPrio.isSome && wfC a && wfC b)
-  | .ite c a b => wfC c && wfC a && wfC b
-  | _ => false
-
 def cost : Expr → Nat
   | .un _ a => cost a + 16
   | .bin _ a b => cost a + cost b + 16
